@@ -229,6 +229,26 @@ class SymStr:
     def encode(self, encoding="utf-8", errors="strict"):
         return encode_cps(self.cps, encoding)
 
+    def _map_case(self, lo, hi, delta):
+        from .ints import ite
+
+        out = []
+        for c in self.cps:
+            if isinstance(c, int):
+                m = chr(c).upper() if delta < 0 else chr(c).lower()
+                out.extend(ord(x) for x in m)
+                continue
+            if c.hi >= 0x80:
+                raise Unsupported("case mapping of a possibly non-ASCII symbolic character")
+            out.append(ite((c >= lo) & (c <= hi), c + delta, c))
+        return mkstr(out)
+
+    def upper(self):
+        return self._map_case(0x61, 0x7A, -32)
+
+    def lower(self):
+        return self._map_case(0x41, 0x5A, 32)
+
     def sx_concretize(self, m):
         from .conv import concretize
 
